@@ -1,6 +1,7 @@
 import A816.Props.C07
 import A816.Props.C03
 import A816.Props.C05
+import A816.Proofs.LabelCheck
 /-!
 # C02 — Every label equals the address where the next byte is really emitted
 
@@ -687,5 +688,126 @@ example (env : Env) (rp re : Resolver) (pc : Address) (info : Tok) (e : PExpr) :
     Agree env (.opcode "lda" (some 2) .direct none (some e) info) rp re pc := by
   refine ⟨?_, trivial, trivial, Or.inr (Or.inl rfl)⟩
   intro h; cases h
+
+/-! ### no spurious rejection (programs without nested scopes)
+
+The emission-time check of a label (`_check_label_address`, fix 9c644c7 / cb74936) must never fire on a program whose
+sizes agree.  For node lists without scope markers — flat programs: no blocks, macros, loops or named scopes — this is
+proved outright: if the passes agree on every node (`AgreeAll`), the label's name is defined by no later label / `.incbin`
+and by no `=` symbol of the list, and is not a code-block parameter, then the check of that label succeeds.  (With nested
+scopes the same argument needs the replay of `Proofs/Replay.lean` to identify the scope each node is visited in; that
+composition is not done here and stays with the streams.) -/
+
+theorem emitLoop_scopes (env : Env) : ∀ (ns : List Node) (st st' : EmitState), LabelCheck.Flat ns →
+    emitLoop env ns st = .ok st' → st'.r.scopes = st.r.scopes ∧ st'.r.current = st.r.current := by
+  intro ns
+  induction ns with
+  | nil => intro st st' _ h; simp only [emitLoop, Except.ok.injEq] at h; rw [← h]; exact ⟨rfl, rfl⟩
+  | cons n ns ih =>
+    intro st st' hf h
+    obtain ⟨hm, hf'⟩ := hf.cons
+    simp only [emitLoop] at h
+    cases hs : emitStep env n st with
+    | error e => simp [hs] at h
+    | ok s1 =>
+      simp only [hs] at h
+      obtain ⟨r1, bs, hem, _, hnil, hne, _, _⟩ := emitStep_spec env n st s1 hs
+      obtain ⟨h1, h2⟩ := LabelCheck.emitNode_scopes env n st.r r1 bs hm hem
+      obtain ⟨i1, i2⟩ := ih s1 st' hf' h
+      have hs1 : s1.r.scopes = r1.scopes ∧ s1.r.current = r1.current := by
+        cases bs with
+        | nil => rw [hnil rfl]; exact ⟨rfl, rfl⟩
+        | cons b t =>
+          obtain ⟨a', _, hst⟩ := hne (by simp)
+          rw [hst]; exact ⟨rfl, rfl⟩
+      exact ⟨by rw [i1, hs1.1, h1], by rw [i2, hs1.2, h2]⟩
+
+theorem cur_resolverReset (r : Resolver) (h : r.current = 0) : (resolverReset r).cur = r.cur := by
+  unfold resolverReset Resolver.cur Resolver.scopeAt
+  simp [h]
+
+open LabelCheck in
+/-- **the label check never fires on a flat program whose passes agree** -/
+theorem no_spurious_rejection_flat (env : Env) (pre : List Node) (name : String) (post : List Node) (r rL : Resolver)
+    (hflat : Flat (pre ++ .label name :: post))
+    (hroot : r.current = 0) (hsize : 0 < r.scopes.size) (hpar : r.cur.parent = none)
+    (hcode : alookup name r.cur.codeSymbols = none)
+    (hfresh1 : name ∉ (post.filter fun n => !Node.isSymbol n).flatMap symNames)
+    (hfresh2 : name ∉ ((pre ++ .label name :: post).filter fun n => !Node.isLabelOrBinary n).flatMap symNames)
+    (hres : resolveLabels env (pre ++ .label name :: post) r = .ok rL)
+    (hag : AgreeAll env (pre ++ .label name :: post) { r with lastUsed := 0 } r.reloc ⟨rL, [], rL.pc, [], [], []⟩)
+    (s1 : EmitState) (hemit : emitLoop env pre ⟨rL, [], rL.pc, [], [], []⟩ = .ok s1) :
+    checkLabel s1.r name s1.r.reloc = .ok () := by
+  unfold resolveLabels at hres
+  simp only at hres
+  cases hp1 : passLoop env Node.isSymbol (pre ++ .label name :: post) { r with lastUsed := 0 } r.reloc with
+  | error e => simp [hp1] at hres
+  | ok q1 =>
+    obtain ⟨r1, pcA⟩ := q1
+    simp only [hp1] at hres
+    cases hp2 : passLoop env Node.isLabelOrBinary (pre ++ .label name :: post) (resolverReset r1) (resolverReset r1).reloc with
+    | error e => simp [hp2] at hres
+    | ok q2 =>
+      obtain ⟨r2, pcB⟩ := q2
+      simp only [hp2, Except.ok.injEq] at hres
+      -- pass 1
+      have hc0 : ({ r with lastUsed := 0 } : Resolver).current < ({ r with lastUsed := 0 } : Resolver).scopes.size := by
+        show r.current < r.scopes.size; rw [hroot]; exact hsize
+      obtain ⟨rA, pc1, hpre, hl1, hs1, hcur1, hsz1, hcode1, hpar1⟩ :=
+        pass1_label env pre name post { r with lastUsed := 0 } r1 r.reloc pcA hflat hc0 hfresh1 hp1
+      have hcur1' : r1.current = 0 := by rw [hcur1]; exact hroot
+      -- pass 2
+      have hcR : (resolverReset r1).cur = r1.cur := cur_resolverReset r1 hcur1'
+      have hc1 : (resolverReset r1).current < (resolverReset r1).scopes.size := by
+        show 0 < r1.scopes.size; rw [hsz1]; exact hsize
+      have k2 := passLoop_keeps env Node.isLabelOrBinary _ (resolverReset r1) r2 _ pcB hflat hc1 hp2
+      rw [no_labelNames_in_pass2] at k2
+      have hcur2 : r2.current = 0 := by rw [k2.cur]; rfl
+      have hL : (resolverReset r2).cur = r2.cur := cur_resolverReset r2 hcur2
+      -- emission of the prefix
+      obtain ⟨hfpre, _⟩ := hflat.append
+      obtain ⟨hsc, hcu⟩ := emitLoop_scopes env pre _ s1 hfpre hemit
+      have hcurS : s1.r.cur = rL.cur := by
+        unfold Resolver.cur Resolver.scopeAt; rw [hsc, hcu]
+      have hrLcur : rL.cur = r2.cur := by rw [← hres]; exact hL
+      -- the address
+      have hrel0 : (⟨rL, [], rL.pc, [], [], []⟩ : EmitState).r.reloc = r.reloc := by
+        show rL.reloc = r.reloc
+        rw [← hres]
+        show r2.reloc = r.reloc
+        rw [k2.reloc]
+        show r1.reloc = r.reloc
+        have k1 := passLoop_keeps env Node.isSymbol _ { r with lastUsed := 0 } r1 r.reloc pcA hflat hc0 hp1
+        rw [k1.reloc]
+      have haddr := pass_addresses_agree env pre { r with lastUsed := 0 } rA r.reloc pc1 _ s1 hrel0
+        (agreeAll_prefix env pre (.label name :: post) _ _ _ hag) hpre hemit
+      -- the check
+      have hlab : alookup name s1.r.cur.labels = some (s1.r.reloc.logical : Int) := by
+        rw [hcurS, hrLcur, k2.labels name (by simp), hcR, hl1, haddr]
+      have hsym : alookup name s1.r.cur.symbols = some (s1.r.reloc.logical : Int) := by
+        rw [hcurS, hrLcur, k2.symbols name hfresh2, hcR, hs1, haddr]
+      have hcd : alookup name s1.r.cur.codeSymbols = none := by
+        rw [hcurS, hrLcur, k2.code, hcR, hcode1]; exact hcode
+      have hpr : s1.r.cur.parent = none := by
+        rw [hcurS, hrLcur, k2.parent, hcR, hpar1]; exact hpar
+      unfold checkLabel
+      simp only [hlab, ↓reduceIte]
+      have hv : s1.r.valueFor name = .int (s1.r.reloc.logical : Int) := by
+        unfold Resolver.valueFor
+        simp only [Resolver.valueForAux]
+        have e1 : (s1.r.scopes.getD s1.r.current default) = s1.r.cur := rfl
+        rw [e1, hpr]
+        simp only [Resolver.getItem, hcd, hsym]
+      rw [hv]
+      simp
+
+/-- the side conditions on names are decidable and met by an ordinary flat program: `a: .ascii 'x' / v = … / b:` -/
+example : LabelCheck.Flat [Node.label "a", .ascii "x", .symbolConst "v" 1, .label "b"] ∧
+    "a" ∉ ([Node.ascii "x", .symbolConst "v" 1, .label "b"].filter fun n => !Node.isSymbol n).flatMap LabelCheck.symNames ∧
+    "a" ∉ ([Node.label "a", .ascii "x", .symbolConst "v" 1, .label "b"].filter fun n => !Node.isLabelOrBinary n).flatMap LabelCheck.symNames := by
+  refine ⟨?_, by decide, by decide⟩
+  intro n hn
+  simp only [List.mem_cons, List.not_mem_nil, or_false] at hn
+  rcases hn with rfl | rfl | rfl | rfl <;> rfl
 
 end A816.C02
